@@ -222,7 +222,7 @@ func ruleLatencyStart(r *Run) {
 		g := r.guardMap(&Path{Fn: fn, Events: path.Events[:i]})
 		r.CheckT("H2", fn.Name+":wallet", g["zero:var:req.WalletAddress"] == "nonzero", ev.Pos, path, "a measurement is started only with a wallet address")
 		r.CheckT("H2", fn.Name+":joined", g["joined:currentParticipant"] == "yes", ev.Pos, path, "a measurement is started only for a joined participant")
-		r.CheckT("H2", fn.Name+":own-state", r.P.Canon(fn, ev.Recv) == "recv.currentParticipant.SignedLatency", ev.Pos, path, "the measurement state is the requesting participant's own")
+		r.CheckT("H2", fn.Name+":own-state", r.P.Canon(ev.Fn, ev.Recv) == "recv.currentParticipant.SignedLatency", ev.Pos, path, "the measurement state is the requesting participant's own")
 		want := []string{"recv.PrivateKey", "param:#1", "var:req.RequestId", "var:req.IterationCount", "recv.currentSession.SessionUUID", "recv.clientID", "var:req.WalletAddress"}
 		okArgs := len(ev.Call.Args) == len(want)
 		var got []string
@@ -278,7 +278,7 @@ func ruleEntityActions(r *Run) {
 			continue
 		}
 		gev := path.Events[iGet]
-		okKey := len(gev.Call.Args) == 2 && r.P.Canon(fn, gev.Call.Args[0]) == ea+".EntityId" && r.P.Canon(fn, gev.Call.Args[1]) == ea+".Name" && r.P.Canon(fn, gev.Recv) == "recv.state"
+		okKey := len(gev.Call.Args) == 2 && r.P.Canon(gev.Fn, gev.Call.Args[0]) == ea+".EntityId" && r.P.Canon(gev.Fn, gev.Call.Args[1]) == ea+".Name" && r.P.Canon(gev.Fn, gev.Recv) == "recv.state"
 		r.CheckT("H3", fn.Name+":lookup-key", okKey, gev.Pos, path, "the stored action is looked up by the request's (entity id, action name)")
 		stored, older := "", ""
 		for j := iGet; j < len(path.Events); j++ {
@@ -319,7 +319,7 @@ func ruleEntityActions(r *Run) {
 			r.CheckT("H3", fn.Name+":stale-refused", refusedStale && iSet < 0, fn.Body.Pos(), path, "an action strictly older than the stored one is refused and not stored")
 		default:
 			nSet++
-			okArg := iSet >= 0 && r.P.Canon(fn, path.Events[max0(iSet)].Call.Args[0]) == ea
+			okArg := iSet >= 0 && r.P.Canon(path.Events[max0(iSet)].Fn, path.Events[max0(iSet)].Call.Args[0]) == ea
 			r.CheckT("H3", fn.Name+":latest-wins", okArg && !refusedStale, fn.Body.Pos(), path,
 				"an action with an equal or newer timestamp (or the first for its key) replaces the stored one (stored=%q older=%q)", stored, older)
 		}
@@ -453,7 +453,7 @@ func ruleEntityActions(r *Run) {
 			iW := -1
 			var wr fieldWrite
 			for i, ev := range path.Events {
-				if ev.Kind != EvCall || ev.Depth != 0 {
+				if ev.Kind != EvCall {
 					continue
 				}
 				if f, ok := ev.Callee.(*types.Func); ok {
@@ -475,17 +475,17 @@ func ruleEntityActions(r *Run) {
 			got := map[string]string{}
 			if k := paramPos(wr.ValC); k >= 0 && k < len(ev.Call.Args) {
 				// the writer stores its argument: the instance is built by the handler
-				if lit := r.P.compositeOf(af, ev.Call.Args[k]); lit != nil {
+				if lit, lfn := r.P.compositeOfIn(ev.Fn, ev.Call.Args[k]); lit != nil {
 					for _, f := range []string{"Id", "AssetId", "ParticipantId", "EntityId"} {
-						got[f] = r.P.Canon(af, litField(lit, f))
+						got[f] = r.P.Canon(lfn, litField(lit, f))
 					}
 				}
 			} else if lit, lfn := r.P.compositeOfIn(wr.Fn, wr.Val); lit != nil {
 				// the writer builds the instance from its own parameters: substitute the handler's arguments
-				recvC := r.P.Canon(af, ev.Recv)
+				recvC := r.P.Canon(ev.Fn, ev.Recv)
 				var args []string
 				for _, a := range ev.Call.Args {
-					args = append(args, r.P.Canon(af, a))
+					args = append(args, r.P.Canon(ev.Fn, a))
 				}
 				for _, f := range []string{"Id", "AssetId", "ParticipantId", "EntityId"} {
 					r.at(wr.Path)
@@ -596,8 +596,8 @@ func ruleSnapshot(r *Run) {
 			}
 			// the session being joined: the receiver of AddParticipant on this path
 			sess := ""
-			if iAdd >= 0 && r.isJoinLocalSession(fn, path.Events[iAdd].Recv) {
-				sess = r.P.Canon(ml.Fn, path.Events[iAdd].Recv)
+			if iAdd >= 0 && r.isJoinLocalSession(path.Events[iAdd].Fn, path.Events[iAdd].Recv) {
+				sess = r.P.Canon(path.Events[iAdd].Fn, path.Events[iAdd].Recv)
 			}
 			okP := get("Participants") == "call:models.ParticipantsToProtobuf("+sess+".call:Session.GetParticipants())"
 			okE := get("Entities") == "call:models.EntitiesToProtobuf("+sess+".call:Session.Entities())"
@@ -847,7 +847,7 @@ func ruleModuleInit(r *Run) {
 					for k, l := range ev.Lhs {
 						c := r.P.Canon(fn, l)
 						if len(ev.Rhs) == len(ev.Lhs) && strings.HasPrefix(c, "recv.") && !strings.Contains(strings.TrimPrefix(c, "recv."), ".") {
-							assigned[c] = r.P.Canon(fn, ev.Rhs[k])
+							assigned[c] = r.P.Canon(ev.Fn, ev.Rhs[k])
 						}
 						if strings.HasPrefix(c, "recv.state.") || (strings.HasPrefix(c, "local:") && strings.Contains(c, ".") && r.isModuleStateLocal(fn, l)) {
 							stateWrites++
@@ -869,14 +869,14 @@ func ruleModuleInit(r *Run) {
 			}
 			if !okState && iSet >= 0 && len(path.Events[iSet].Call.Args) == 2 {
 				// creating path: the state bound is the very object just registered in the session
-				reg := r.P.Canon(fn, path.Events[iSet].Call.Args[1])
+				reg := r.P.Canon(path.Events[iSet].Fn, path.Events[iSet].Call.Args[1])
 				okState = reg != "" && strings.HasPrefix(st, reg)
 			}
 			r.CheckT("J3", fn.Name+":state-from-session", okState, fn.Body.Pos(), path, "the module's state is the one registered in the session under the module's name (%q)", st)
 			iGet := idxOfCall(path, getState, 0)
 			if iGet >= 0 {
 				gev := path.Events[iGet]
-				r.CheckT("J3", fn.Name+":state-key", r.P.Canon(fn, gev.Recv) == ps && r.P.Canon(fn, gev.Call.Args[0]) == "recv.call:Module.Name()", gev.Pos, path, "the state is looked up in the given session under the module's own name")
+				r.CheckT("J3", fn.Name+":state-key", r.P.Canon(gev.Fn, gev.Recv) == ps && r.P.Canon(gev.Fn, gev.Call.Args[0]) == "recv.call:Module.Name()", gev.Pos, path, "the state is looked up in the given session under the module's own name")
 			}
 			switch lookup {
 			case "hit":
@@ -888,11 +888,11 @@ func ruleModuleInit(r *Run) {
 				if iReg < 0 {
 					iReg = iLos
 				}
-				okSet := iReg >= 0 && r.P.Canon(fn, path.Events[max0(iReg)].Recv) == ps && r.P.Canon(fn, path.Events[max0(iReg)].Call.Args[0]) == "recv.call:Module.Name()"
+				okSet := iReg >= 0 && r.P.Canon(path.Events[max0(iReg)].Fn, path.Events[max0(iReg)].Recv) == ps && r.P.Canon(path.Events[max0(iReg)].Fn, path.Events[max0(iReg)].Call.Args[0]) == "recv.call:Module.Name()"
 				r.CheckT("J3", fn.Name+":create", okSet, fn.Body.Pos(), path, "a missing module state is created and registered in the session under the module's name")
 			default:
 				// no separate lookup: a single get-or-create call decides both cases inside the session
-				okLos := iLos >= 0 && iSet < 0 && r.P.Canon(fn, path.Events[max0(iLos)].Recv) == ps && r.P.Canon(fn, path.Events[max0(iLos)].Call.Args[0]) == "recv.call:Module.Name()"
+				okLos := iLos >= 0 && iSet < 0 && r.P.Canon(path.Events[max0(iLos)].Fn, path.Events[max0(iLos)].Recv) == ps && r.P.Canon(path.Events[max0(iLos)].Fn, path.Events[max0(iLos)].Call.Args[0]) == "recv.call:Module.Name()"
 				if okLos {
 					created++
 					reused++
